@@ -63,6 +63,7 @@ const (
 type catProgram struct {
 	name string
 	prog *idlgen.Program
+	opts [][]string // option sets to run under (nil: the default pair)
 	vtic bool   // usable under value_type_in_container
 	defect string // non-empty: the program is the replay of a known defect (stable key)
 }
@@ -313,7 +314,21 @@ func catalogue() []catProgram {
 		{name: "samepkg", prog: catalogueSamePkg()},
 		{name: "clash", prog: catalogueClash(false), vtic: true},
 		{name: "clash_all", prog: catalogueClash(true)},
+		{name: "shadow", prog: catalogueShadow(), vtic: true},
+		{name: "elems", prog: catalogueElems(), vtic: true},
+		{name: "noalias_enum", prog: catalogueNoAliasEnum(), opts: [][]string{{"use_type_alias=false"}}},
 		{name: "comments", prog: catalogueComments()},
 		{name: "ways", prog: catalogueWays()},
 	}
+}
+
+// catalogueNoAliasEnum: a default of a typedef'd enum type under use_type_alias=false (`type TE E`): the enum
+// member is a constant of type E, the field is a TE.
+func catalogueNoAliasEnum() *idlgen.Program {
+	a := &idlgen.File{Path: "a.thrift", GoNS: "noalias.pa"}
+	a.Enums = []*idlgen.Enum{{Name: "E", Values: []idlgen.EnumValue{{Name: "A", Value: 0}, {Name: "B", Value: 3, HasValue: true}}}}
+	a.Typedefs = []*idlgen.Typedef{{Name: "TE", Type: tn(0, "E")}}
+	a.Structs = []*idlgen.Struct{{Kind: 's', Name: "S", Fields: []*idlgen.Field{fld(1, "e", rD, tn(0, "TE"), cId("E.B", vI(3)))}}}
+	a.Consts = []*idlgen.ConstDef{cdef("C", tn(0, "TE"), cId("E.B", vI(3)))}
+	return &idlgen.Program{Files: []*idlgen.File{a}}
 }
